@@ -266,6 +266,33 @@ def lengthOrLegacyAngleEquiv (a b : Num) : Bool :=
     (match a with | .number _ => true | .dimension _ u => lengthUnits.contains u || angleUnits.contains u | _ => false) &&
     (match b with | .number _ => true | .dimension _ u => lengthUnits.contains u || angleUnits.contains u | _ => false))
 
+/-- functions whose `<angle>` arguments may be written as a bare `0` (CSS Transforms 1 §12, Filter Effects 1
+    `hue-rotate()`, CSS Images 3/4 gradients) -/
+def legacyAngleFns : List (List Char) :=
+  ["rotate", "rotatex", "rotatey", "rotatez", "rotate3d", "skew", "skewx", "skewy", "hue-rotate",
+   "linear-gradient", "repeating-linear-gradient", "conic-gradient", "repeating-conic-gradient",
+   "-webkit-linear-gradient", "-moz-linear-gradient", "-o-linear-gradient"].map String.toList
+
+/-- math functions whose arguments are typed: a bare `0` is a `<number>`, not a `<length>` (CSS Values 4 §10) -/
+def typedMathFns : List (List Char) :=
+  ["abs", "sign", "hypot", "atan2", "pow", "sqrt", "mod", "rem", "sin", "cos", "tan", "asin", "acos", "atan",
+   "exp", "log"].map String.toList
+
+/-- do two numeric values denote the same quantity as an argument of function `name` (`[]` = top level of a
+    declaration)?  Equal, or both zero where the unit of a zero may be dropped: a `<length>` anywhere except in
+    the typed math functions, an `<angle>` only in the legacy contexts. -/
+def ctxEquiv (name : List Char) (a b : Num) : Bool :=
+  a == b ||
+  (a.isZero && b.isZero && !typedMathFns.contains (lower name) &&
+    (match a with
+     | .number _ => true
+     | .dimension _ u => lengthUnits.contains u || (angleUnits.contains u && legacyAngleFns.contains (lower name))
+     | _ => false) &&
+    (match b with
+     | .number _ => true
+     | .dimension _ u => lengthUnits.contains u || (angleUnits.contains u && legacyAngleFns.contains (lower name))
+     | _ => false))
+
 /-! ## 1–4 values → four sides (CSS 2.1 §8.3 margin, §8.4 padding, §8.5.1 border-width) -/
 
 def fourSides : List Tok → Option (Tok × Tok × Tok × Tok)
@@ -295,6 +322,12 @@ def hexColor (ds : List Char) : Option Color :=
   | [r1, r2, g1, g2, b1, b2, a1, a2] =>
     some ⟨16 * r1 + r2, 16 * g1 + g2, 16 * b1 + b2, ((16 * a1 + a2 : Nat) : Rat) / 255⟩
   | _ => none
+
+/-- trigger of known finding K-C04-11: an 8-digit hex colour `#rrggbb00` whose colour digits are not all `0` -/
+def hexAlpha00 (data : List Char) : Bool :=
+  match data with
+  | [_, a, b, c, d, e, f, x, y] => x == '0' && y == '0' && !([a, b, c, d, e, f].all (· == '0'))
+  | _ => false
 
 /-- colour keywords (ASCII case-insensitive) -/
 def namedColor (s : List Char) : Option Color :=
@@ -459,6 +492,13 @@ inductive Family where
   | other (ts : List Tok)       -- var(), env(), … (opaque)
   deriving DecidableEq, Repr
 
+def splitOn (c : Char) : List Char → List (List Char)
+  | [] => [[]]
+  | x :: r =>
+    match splitOn c r with
+    | [] => [[]]
+    | h :: t => if x == c then [] :: h :: t else (x :: h) :: t
+
 def joinSpace : List (List Char) → List Char
   | [] => []
   | [a] => a
@@ -481,6 +521,24 @@ def familyOf (item : List Tok) : Option Family :=
     else if item.all (fun t => t.tt == .ident && !cssWideKeywords.contains (lower t.data)) then
       some (.name (joinSpace (item.map fun t => lower t.data)))
     else none
+
+/-- trigger of known finding K-C04-6, on the lower-cased content of a family string: a single word that is
+    a generic-family or CSS-wide keyword, or several words one of which is a CSS-wide keyword -/
+def familyKeywordString (lb : List Char) : Bool :=
+  match splitOn ' ' lb with
+  | [w] => genericFamilies.contains w || cssWideKeywords.contains w
+  | ws => ws.any cssWideKeywords.contains
+
+/-- the tokens a user agent reads from the bytes written for a `font-family` item: a quoted string stays
+    one string token; bytes that were unquoted are a sequence of identifiers separated by single spaces (the
+    model unquotes only when every word is an identifier — lexer contract) -/
+def asWritten (t : Tok) : List Tok :=
+  if t.tt == .string && !(t.data.head? == some '"' || t.data.head? == some '\'') then
+    (splitOn ' ' t.data).map fun w => Tok.mk .ident w []
+  else [t]
+
+/-- a string token as the lexer delivers it: quote, content, the same quote -/
+def strTok (q : Char) (body : List Char) (args : List Tok) : Tok := .mk .string (q :: body ++ [q]) args
 
 def splitCommas : List Tok → List (List Tok)
   | [] => [[]]
@@ -684,18 +742,6 @@ def natChars (n : Nat) : List Char := Nat.toDigits 10 n
 
 def ratChars (q : Rat) : List Char :=
   (if q.num < 0 then ['-'] else []) ++ natChars q.num.natAbs ++ (if q.den == 1 then [] else '/' :: natChars q.den)
-
-/-- functions whose `<angle>` arguments may be written as a bare `0` (CSS Transforms 1 §12, Filter Effects 1
-    `hue-rotate()`, CSS Images 3/4 gradients) -/
-def legacyAngleFns : List (List Char) :=
-  ["rotate", "rotatex", "rotatey", "rotatez", "rotate3d", "skew", "skewx", "skewy", "hue-rotate",
-   "linear-gradient", "repeating-linear-gradient", "conic-gradient", "repeating-conic-gradient",
-   "-webkit-linear-gradient", "-moz-linear-gradient", "-o-linear-gradient"].map String.toList
-
-/-- math functions whose arguments are typed: a bare `0` is a `<number>`, not a `<length>` (CSS Values 4 §10) -/
-def typedMathFns : List (List Char) :=
-  ["abs", "sign", "hypot", "atan2", "pow", "sqrt", "mod", "rem", "sin", "cos", "tan", "asin", "acos", "atan",
-   "exp", "log"].map String.toList
 
 def colorTok (c : Color) : Tok :=
   .mk .hash ('#' :: natChars c.r ++ ',' :: natChars c.g ++ ',' :: natChars c.b ++ ',' :: ratChars c.a) []
